@@ -339,12 +339,20 @@ def run_regq(reqs, ops):
     ra = M("reg_access")
     ty = {"R": ra.AccessType.READ, "W": ra.AccessType.WRITE}
     b = ra.RegAccQBuilder()
-    for t, o in reqs:
+    # life cycle of the builder (chosen by the number of requests): create() once; create() twice, the SECOND queue
+    # used and the first left untouched; a queue created half-way, left untouched, and the builder used further
+    hist = len(reqs) % 3
+    early = []
+    for k, (t, o) in enumerate(reqs):
+        if hist == 2 and k == len(reqs) // 2:
+            early.append(b.create())
         b.append(ty[t], _fresh(o))
     try:
         q0 = enc_pyqueue(list(b._queue))                  # builder keeps registration order (private attribute)
     except (AttributeError, TypeError):
         q0 = Sym("unavailable")
+    if hist == 1:
+        early.append(b.create())
     q = b.create()
     outs = []
     dead = False
